@@ -34,7 +34,7 @@ def gen_case(ctx):
         prev_il = None
         for r in range(nrep):
             n = rng.randint(5, 60) if rng.random() < 0.8 else rng.randint(5, 9)
-            kind = rng.choice(['contig', 'strided', 'gapped', 'irregular'])
+            kind = rng.choice(['contig', 'strided', 'gapped', 'irregular', 'coprime', 'deceptive'])
             il = gen_idl(rng, n, kind)
             if r > 0 and rng.random() < 0.3 and prev_il is not None and len(prev_il) >= 6 and (prev_il[-1] - prev_il[0] + 1) > len(prev_il):
                 # a replica with the same number of configurations, the same first and last one and the same spacing
